@@ -387,25 +387,41 @@ def funcLen (ck : Bool) (body : S) : Nat := prologueLen ck + lenS ck body
 
 def mkCx (cf : Config) (body : S) : Cx := { w := cf.w, checked := cf.checked, B := funcLen cf.checked body }
 
-def funcCode (cf : Config) (body : S) : List Instr :=
+/-- frame offsets of the `int` parameters of the entry point: the return address is at `w`, the
+parameters follow in order -/
+def paramGam (w : Nat) : (i : Nat) → List String → Gam
+  | _, [] => []
+  | i, x :: xs => (x, (i + 2) * w) :: paramGam w (i + 1) xs
+
+/-- stack offset at the start of the body: return address and parameters are reserved -/
+def entryOff (w : Nat) (params : List String) : Nat := (params.length + 1) * w
+
+def funcCode (cf : Config) (params : List String) (body : S) : List Instr :=
   let cx := mkCx cf body
   (if cf.checked then
-    [.j (.imm 5), .alu .sub cx.r1 (.st cx.fp) (.st 0), .hcond .hgeu (.st cx.r1) (.imm (pkS cf.w cf.w body % cx.M)),
+    [.j (.imm 5), .alu .sub cx.r1 (.st cx.fp) (.st 0),
+     .hcond .hgeu (.st cx.r1) (.imm (pkS cf.w (entryOff cf.w params) body % cx.M)),
      .j (.imm (cx.B + off_stack_overflow)), .halt]
-   else []) ++ cS cx [] (prologueLen cf.checked) cf.w body
+   else []) ++ cS cx (paramGam cf.w 0 params) (prologueLen cf.checked) (entryOff cf.w params) body
 
-/-- the state section `gen_lines` emits: `ap fp r0 r1 r2`, the stack, the entry frame (the return
-address of `@is_you` is `all_is_win`); everything else is zero -/
-def initMem (cf : Config) (body : S) : Mem :=
+/-- store the (already parsed) command-line arguments into the entry frame -/
+def writeArgs (w F : Nat) : Mem → Nat → List Int → Mem
+  | m, _, [] => m
+  | m, i, a :: rest => writeArgs w F (m.writeLE (F - (i + 2) * w) w (wrapI (256 ^ w) a)) (i + 1) rest
+
+/-- the state section `gen_lines` emits: `ap fp r0 r1 r2`, the stack, the entry frame (arguments,
+then the return address of `@is_you`, which is `all_is_win`); everything else is zero -/
+def initMem (cf : Config) (args : List Int) (body : S) : Mem :=
   let w := cf.w
-  let stackEnd := 5 * w + cf.stackWords * w + w
-  (((⟨Array.replicate stackEnd 0⟩ : Mem).writeLE 0 w (5 * w)).writeLE w w stackEnd).writeLE (stackEnd - w) w
-    (funcLen cf.checked body + off_all_is_win)
+  let stackEnd := 5 * w + cf.stackWords * w + args.length * w + w
+  writeArgs w stackEnd
+    ((((⟨Array.replicate stackEnd 0⟩ : Mem).writeLE 0 w (5 * w)).writeLE w w stackEnd).writeLE (stackEnd - w) w
+      (funcLen cf.checked body + off_all_is_win)) 0 args
 
-def coreProg (cf : Config) (body : S) : Prog :=
-  { w := cf.w, code := (funcCode cf body ++ stdlibCode cf.w (funcLen cf.checked body)).toArray, const := ⟨#[]⟩ }
+def coreProg (cf : Config) (params : List String) (body : S) : Prog :=
+  { w := cf.w, code := (funcCode cf params body ++ stdlibCode cf.w (funcLen cf.checked body)).toArray, const := ⟨#[]⟩ }
 
-def coreInit (cf : Config) (body : S) : St := ⟨0, initMem cf body⟩
+def coreInit (cf : Config) (args : List Int) (body : S) : St := ⟨0, initMem cf args body⟩
 
 /-! ## source semantics (word values are the machine representation `0 ≤ v < 256^w`) -/
 abbrev Env := String → Nat
@@ -518,9 +534,14 @@ def exec (M n : Nat) : (fuel : Nat) → Env → S → Option (Env × List Ev × 
       pure (env3, tr1 ++ tr3, r3)
     else pure (env1, tr1, r1)
 
+/-- the environment the entry point starts in: its parameters bound to the arguments -/
+def argEnv (M : Nat) : List String → List Int → Env
+  | x :: xs, a :: as => upd (argEnv M xs as) x (wrapI M a)
+  | _, _ => fun _ => 0
+
 /-- observable behaviour of a core program: output events followed by the terminal flags -/
-def runCore (w fuel : Nat) (body : S) : Option (List Ev) :=
-  match exec (256 ^ w) (8 * w) fuel (fun _ => 0) body with
+def runCore (w fuel : Nat) (params : List String) (args : List Int) (body : S) : Option (List Ev) :=
+  match exec (256 ^ w) (8 * w) fuel (argEnv (256 ^ w) params args) body with
   | none => none
   | some (_, tr, .div0) => some (tr ++ [Ev.flag "division_by_zero", Ev.flag "error"])
   | some (_, tr, .defeat) => some tr
@@ -584,12 +605,12 @@ partial def toS : List Hid.Stmt → Option S
   | .tryb (.block body) .undo (.block handler) :: k => do pure (.tryUndo (← toS body) (← toS handler) (← toS k))
   | _ => none
 
-def fromAst (p : Hid.Program) : Option S :=
+def fromAst (p : Hid.Program) : Option (List String × S) :=
   match p.globals, p.funcs with
   | [], [f] =>
-    if f.name == "@is_you" && f.ret == .empty && f.params.isEmpty && !f.preemptive then
+    if f.name == "@is_you" && f.ret == .empty && f.params.all (fun q => q.2 == .int) && !f.preemptive then
       match f.body with
-      | .block ss => toS ss
+      | .block ss => (toS ss).map (fun b => (f.params.map (·.1), b))
       | _ => none
     else none
   | _, _ => none
